@@ -1,10 +1,12 @@
 import FxVerif.Model.C05
+import FxVerif.Model.C05Ext
 import FxVerif.Model.Util
 /-! line-protocol driver for the C05/C06 model: `lake env lean --run Driver/C05.lean < ops.txt` -/
 open FxVerif FxVerif.Util FxVerif.Model.C05
 
 structure St where
   s : State := {}
+  x : Ext := {}
   nActors : Nat := 0
 
 def nat? (w : String) : Option Nat := w.toNat?
@@ -25,7 +27,7 @@ def showCoins (cs : List (Nat × Nat)) : String :=
 def showState (st : St) (r : Res) : String :=
   let s := st.s
   let res := match r with | .ok n => s!"ok:{n}" | .err => "err" | .panic => "panic"
-  let pool := ";".intercalate ((sortBy (·.id) s.pool).map showTx)
+  let pool := ";".intercalate (s.pool.map showTx)
   let batches := ";".intercalate ((sortBy (·.nonce) s.batches).map fun b =>
     s!"{b.nonce}:{b.token}:{b.timeout}:{b.block}:{b.feeReceive}:" ++ ",".intercalate (b.txs.map showTx))
   let calls := ";".intercalate ((sortBy (·.nonce) s.calls).map fun c =>
@@ -35,10 +37,14 @@ def showState (st : St) (r : Res) : String :=
     (List.range s.nTokens).map fun t => toString (getBal s.bal (a, t)))
   s!"{res} next={s.nextTxId},{s.nextBatchId},{s.nextCallId} pool=[{pool}] batches=[{batches}] calls=[{calls}] pend=[{pend}] obs={s.obsExt},{s.obsFx},{s.eventNonce} bal={bal}"
 
+/-- the line also says whether the external-chain ghost (`Model/C05Ext.lean`) finds an observed event admissible -/
 def apply (st : St) (op : Op) : St × String :=
   let (s', r) := step st.s op
-  let st' := { st with s := s' }
-  (st', showState st' r)
+  let adm := match op with
+    | .observe _ _ => if decide (admissible st.x op) then "1" else "0"
+    | _ => "-"
+  let st' := { st with s := s', x := st.x.next st.s op }
+  (st', showState st' r ++ s!" adm={adm}")
 
 def str (w : String) : String := if w == "-" then "" else w
 
